@@ -47,24 +47,98 @@ def check(ctx) -> Result:
     res.add(meq(M["I"].m, M["Z"].m), "K-measurement-basis", "MEASUREMENT_MAPPING[I]", MAP, "MEASUREMENT_MAPPING", "I is measured in the Z basis (results reused)", "I is not measured like Z although Z results are reused for I", construct="MEASUREMENT[I]")
     # eigenvalue convention
     ev = ctx.func(UT, "_calculate_expectation_value")
-    mult = {}
-    for n in walk_no_nested(ev.node):
-        if isinstance(n, ast.If):
-            cur = n
-            while True:
-                for st in ast.walk(cur.test):
-                    if isinstance(st, ast.Call) and src(st.func) == "State":
-                        key = src(st.args[0]).replace(" ", "")
-                        aug = [a for a in cur.body if isinstance(a, ast.AugAssign) and isinstance(a.op, ast.Mult)]
-                        if aug:
-                            mult[key] = src(aug[0].value)
-                if len(cur.orelse) == 1 and isinstance(cur.orelse[0], ast.If):
-                    cur = cur.orelse[0]
-                else:
-                    break
     zdiag = [P["Z"][0][0].value().real, P["Z"][1][1].value().real]
-    okc = mult.get("[1,0]") in ("1", "+1") and mult.get("[0,1]") == "-1" and zdiag == [1.0, -1.0]
-    res.add(okc, "K-eigenvalue-convention", "_calculate_expectation_value", ev.site(), ev.qualname, "|1,0> contributes +1 and |0,1> contributes -1, the diagonal of PAULI[Z]", f"eigenvalue multipliers {mult} do not match the diagonal of PAULI['Z'] {zdiag}", construct=str(mult))
+    # the per-qubit factor of the eigenvalue, decided per case over the paths of the inner loop body:
+    #   operator I -> +1 ; qubit state |1,0> -> +1 ; |0,1> -> -1 ; anything else -> refused
+    from ..inline import inlined as _inl
+    evn = _inl(ev.node)
+    inner = [l for l in ast.walk(evn) if isinstance(l, ast.For) and "split" in src(l.iter)]
+
+    def _truth(t, case):
+        """three-valued: case in {'I', 'A' (|1,0>), 'B' (|0,1>), 'X' (neither)}"""
+        if isinstance(t, ast.UnaryOp) and isinstance(t.op, ast.Not):
+            v = _truth(t.operand, case)
+            return None if v is None else (not v)
+        if isinstance(t, ast.BoolOp):
+            vs = [_truth(x, case) for x in t.values]
+            if isinstance(t.op, ast.And):
+                return False if any(v is False for v in vs) else (True if all(v is True for v in vs) else None)
+            return True if any(v is True for v in vs) else (False if all(v is False for v in vs) else None)
+        if isinstance(t, ast.Compare) and len(t.ops) == 1 and isinstance(t.ops[0], (ast.Eq, ast.NotEq)):
+            sides = [t.left, t.comparators[0]]
+            neg = isinstance(t.ops[0], ast.NotEq)
+            for x in sides:
+                if isinstance(x, ast.Constant) and x.value == "I":
+                    v = case == "I"
+                    return (not v) if neg else v
+                if isinstance(x, ast.Call) and src(x.func) == "State" and x.args and isinstance(x.args[0], (ast.List, ast.Tuple)):
+                    lit = src(x.args[0]).replace(" ", "").strip("[]()")
+                    if case == "I":
+                        return None
+                    v = (lit == "1,0" and case == "A") or (lit == "0,1" and case == "B")
+                    if lit not in ("1,0", "0,1"):
+                        return None
+                    return (not v) if neg else v
+        return None
+
+    def _effects(body, case, factor=1):
+        """set of outcomes: a number (product of the constant factors applied), 'raise', or 'unknown'"""
+        out = set()
+        cur = {factor}
+        for st in body:
+            if not cur:
+                break
+            if isinstance(st, ast.If):
+                v = _truth(st.test, case)
+                nxt = set()
+                for f_ in cur:
+                    res_b = _effects(st.body, case, f_) if v is not False else set()
+                    res_e = _effects(st.orelse, case, f_) if v is not True else set()
+                    if v is not False and not st.body:
+                        res_b = {("cont", f_)}
+                    if v is not True and not st.orelse:
+                        res_e = {("cont", f_)}
+                    for r_ in res_b | res_e:
+                        if isinstance(r_, tuple) and r_[0] == "cont":
+                            nxt.add(r_[1])
+                        else:
+                            out.add(r_)
+                cur = nxt
+            elif isinstance(st, ast.AugAssign) and isinstance(st.op, ast.Mult) and src(st.target) == "multiplier":
+                k = st.value
+                val = None
+                if isinstance(k, ast.Constant) and isinstance(k.value, (int, float)):
+                    val = k.value
+                elif isinstance(k, ast.UnaryOp) and isinstance(k.op, ast.USub) and isinstance(k.operand, ast.Constant):
+                    val = -k.operand.value
+                cur = {f_ * val if val is not None and f_ != "unknown" else "unknown" for f_ in cur}
+            elif isinstance(st, ast.Assign) and src(st.targets[0]) == "multiplier":
+                cur = {"unknown"}
+            elif isinstance(st, ast.Raise):
+                out.add("raise")
+                cur = set()
+            elif isinstance(st, (ast.Continue, ast.Break)):
+                out |= {("done", f_) for f_ in cur}
+                cur = set()
+            elif isinstance(st, (ast.For, ast.While)):
+                cur = {"unknown"}
+        return out | {("cont", f_) for f_ in cur}
+
+    if len(inner) != 1:
+        res.frozen(False, "K-eigenvalue-convention", "_calculate_expectation_value", ev.site(), ev.qualname, "", "loop over the operators of the measurement string not recognised", construct="")
+    else:
+        want = {"I": {1}, "A": {1}, "B": {-1}, "X": {"raise"}}
+        got = {}
+        for case in want:
+            eff = _effects(inner[0].body, case)
+            got[case] = {(e[1] if isinstance(e, tuple) else e) for e in eff}
+        names = {"I": "operator I", "A": "qubit state |1,0>", "B": "qubit state |0,1>", "X": "any other occupation of the two modes"}
+        if any("unknown" in v for v in got.values()):
+            res.frozen(False, "K-eigenvalue-convention", "_calculate_expectation_value", ev.site(inner[0]), ev.qualname, "", f"eigenvalue factor not derived: {got}", construct=str(got))
+        else:
+            badc = [c for c in want if got[c] != want[c]]
+            res.add(not badc and zdiag == [1.0, -1.0], "K-eigenvalue-convention", "_calculate_expectation_value", ev.site(inner[0]), ev.qualname, "|1,0> contributes +1 and |0,1> contributes -1 (the diagonal of PAULI[Z]), I contributes +1, other occupations are refused",
+                    "eigenvalue factors do not match the diagonal of PAULI['Z'] " + str(zdiag) + ": " + "; ".join(f"{names[c]} gives {sorted(map(str, got[c]))}, expected {sorted(map(str, want[c]))}" for c in badc), construct=str({c: sorted(map(str, v)) for c, v in got.items()}))
     t = src(ev.node).replace(" ", "")
     res.frozen("state[2*j:2*j+2]" in t and "enumerate(measurement.split(','))" in t and "expectation/n_counts" in t and "expectation+=multiplier*counts" in t, "K-eigenvalue-convention", "_calculate_expectation_value:indexing", ev.site(), ev.qualname,
                "qubit j is read from modes (2j, 2j+1); weighted mean over counts", "expectation-value bookkeeping idiom not recognised", construct="indexing")
